@@ -341,6 +341,45 @@ static int validate_type(const char *function, vnadata_internal_t *vdip,
 }
 
 /*
+ * validate_dimensions: check the arguments common to resize and init
+ *   @function: name of user-called function
+ *   @vdip: internal object pointer
+ *   @type: parameter type
+ *   @rows: number of rows
+ *   @columns: number of columns
+ *   @frequencies: number of frequencies
+ */
+static int validate_dimensions(const char *function, vnadata_internal_t *vdip,
+	vnadata_parameter_type_t type, int rows, int columns, int frequencies)
+{
+    if (rows < 0) {
+	_vnadata_error(vdip, VNAERR_USAGE,
+	    "%s: rows cannot be negative: %d", function, rows);
+	return -1;
+    }
+    if (columns < 0) {
+	_vnadata_error(vdip, VNAERR_USAGE,
+	    "%s: columns cannot be negative: %d", function, columns);
+	return -1;
+    }
+    if (frequencies < 0) {
+	_vnadata_error(vdip, VNAERR_USAGE,
+	    "%s: frequencies cannot be negative: %d", function, frequencies);
+	return -1;
+    }
+    if (validate_type(function, vdip, type, rows, columns) == -1) {
+	return -1;
+    }
+    if (columns != 0 &&
+	    rows > (int)(INT_MAX / sizeof(double complex)) / columns) {
+	_vnadata_error(vdip, VNAERR_USAGE,
+	    "%s: %d x %d matrix is too large", function, rows, columns);
+	return -1;
+    }
+    return 0;
+}
+
+/*
  * vnadata_resize: redefine the dimensions and parameter type
  *   @vdp: pointer to vnacal_data_t structure
  *   @type: new network parameter data type
@@ -376,28 +415,8 @@ int vnadata_resize(vnadata_t *vdp, vnadata_parameter_type_t type,
 	errno = EINVAL;
 	return -1;
     }
-    if (rows < 0) {
-	_vnadata_error(vdip, VNAERR_USAGE,
-	    "vnadata_resize: rows cannot be negative: %d", rows);
-	return -1;
-    }
-    if (columns < 0) {
-	_vnadata_error(vdip, VNAERR_USAGE,
-	    "vnadata_resize: columns cannot be negative: %d", columns);
-	return -1;
-    }
-    if (frequencies < 0) {
-	_vnadata_error(vdip, VNAERR_USAGE,
-	    "vnadata_resize: frequencies cannot be negative: %d", frequencies);
-	return -1;
-    }
-    if (validate_type(__func__, vdip, type, rows, columns) == -1) {
-	return -1;
-    }
-    if (columns != 0 &&
-	    rows > (int)(INT_MAX / sizeof(double complex)) / columns) {
-	_vnadata_error(vdip, VNAERR_USAGE,
-	    "vnadata_resize: %d x %d matrix is too large", rows, columns);
+    if (validate_dimensions(__func__, vdip, type, rows, columns,
+		frequencies) == -1) {
 	return -1;
     }
     old_ports = MAX(vdp->vd_rows, vdp->vd_columns);
@@ -495,6 +514,24 @@ int vnadata_resize(vnadata_t *vdp, vnadata_parameter_type_t type,
 int vnadata_init(vnadata_t *vdp, vnadata_parameter_type_t type,
 	int rows, int columns, int frequencies)
 {
+    vnadata_internal_t *vdip;
+
+    /*
+     * Validate first: a refused call must not wipe the object.
+     */
+    if (vdp == NULL) {
+	errno = EINVAL;
+	return -1;
+    }
+    vdip = VDP_TO_VDIP(vdp);
+    if (vdip->vdi_magic != VDI_MAGIC) {
+	errno = EINVAL;
+	return -1;
+    }
+    if (validate_dimensions(__func__, vdip, type, rows, columns,
+		frequencies) == -1) {
+	return -1;
+    }
     (void)vnadata_resize(vdp, VPT_UNDEF, 0, 0, 0);
     (void)vnadata_set_all_z0(vdp, VNADATA_DEFAULT_Z0);
     return vnadata_resize(vdp, type, rows, columns, frequencies);
